@@ -6,11 +6,12 @@ import SqlizeModel.Driver.Hash
 import SqlizeModel.Driver.Calls
 import SqlizeModel.Driver.Version
 import SqlizeModel.Driver.Files
+import SqlizeModel.Driver.Exports
 
 open Sqlize Sqlize.Driver
 
 def handlers : List (String × Handler) :=
-  [("snake", snakeHandler), ("pair", pairHandler), ("script", scriptHandler), ("hash", hashHandler), ("calls", callsHandler), ("version", versionHandler), ("versionexcl", versionExclHandler), ("files", filesHandler), ("filesread", filesReadHandler), ("filesmisc", filesMiscHandler), ("filesseq", filesSeqHandler), ("filesseqfast", filesSeqFastHandler)]
+  [("snake", snakeHandler), ("pair", pairHandler), ("script", scriptHandler), ("hash", hashHandler), ("calls", callsHandler), ("version", versionHandler), ("versionexcl", versionExclHandler), ("files", filesHandler), ("filesread", filesReadHandler), ("filesmisc", filesMiscHandler), ("filesseq", filesSeqHandler), ("filesseqfast", filesSeqFastHandler), ("export", exportHandler)]
 
 def handleLine (line : String) : String :=
   match SExp.parse line with
